@@ -8,9 +8,13 @@ Three streams of cases, all from ctx.rng:
             oracle = the definitions, by brute force over ALL hyperedges of size 2..D.
   update  : one `_w_update` / `_u_update` in exact arithmetic (exact equality with the model) + oracles
             (non-negative, symmetric/diagonal, one-step ascent of the penalised objective).
-  fit     : real float `fit` for n_iter = 1..8, same seed; oracles = supplied parameters untouched, finite,
-            non-negative, symmetric/diagonal, exact Poisson log-likelihood monotone (penalised when w_prior > 0);
-            every recorded update step can be replayed by the model from the implementation's current (u, w).
+  fit     : real float `fit` for an increasing list of n_iter, same seed, with tolerance in {not passed, None, 0, small,
+            medium, large} and check_convergence_every in {not passed, 0, 1, 2, 3, 5, ..}; oracles = supplied parameters
+            untouched, finite, non-negative, symmetric/diagonal, exact Poisson log-likelihood monotone in n_iter (penalised
+            when w_prior > 0) whichever exit of the loop was taken; a reference run without stopping rule records the
+            trajectory of (u, w): the model's loop control (`ctrl`) run on that trajectory must give the implementation's
+            training_iter / tolerance_reached and the returned parameters must be the trajectory state of that iteration
+            divided by C() (theorem C15_fit_returns); update steps and whole short fits are replayed by the model.
 """
 import itertools
 import math
@@ -25,14 +29,20 @@ from hgxv import Q
 RULE = ("closed/update cases: N in 2..7 nodes, K in 1..3, u entries k/8 (k<=16, about 20% zeros), w symmetric or diagonal "
         "with entries k/8, D in 2..N, 1..9 distinct hyperedges of size 2..D, unweighted or with weights k/4 or integer, priors "
         "0 / 1/2 / 1 / 5 or a symmetric dyadic array; fit cases: seed x (which of u, w is supplied) x assortative x "
-        "w_prior in {0,1,5} x max_hye_size None/given, n_iter = 1..8 on the same data. Distinct = canonical text of the "
+        "w_prior in {0,1,5} or a symmetric positive array x u_prior in {0,1} or a positive array x max_hye_size None/given x "
+        "tolerance (not passed / None / 0 / 1e-9..100) x check_convergence_every (not passed / 0 / 1..12) x K, assortative "
+        "passed or inferred x hypergraph built directly or through a history (shuffled insertion, non-contiguous labels, "
+        "temporary and re-inserted hyperedges); n_iter = 1..8 plus k*every, k*every+1, k*every+2 (k=1..3) and one of "
+        "24/40/64 when a tolerance is set, all on the same data. Distinct = canonical text of the "
         "whole input; non-trivial = (closed/update) K >= 2, some hyperedge of size >= 3, at least two different rows of u, "
         "(fit) the likelihood moved by more than 1e-9 between two consecutive n_iter")
 ASSUMPTIONS = [
     "hyperedges have size >= 2 (size 1 has Poisson parameter 0 and makes the updates divide by zero): excluded from the generator",
     "N >= 3 for the per-node expected degree (the closed form divides by N-2); D <= N",
-    "fit is run with tolerance=None (the property speaks of n_iter); n_iter >= 1",
-    "nodes are 0..N-1 and all present (row i of u belongs to the i-th node in sorted order)",
+    "n_iter >= 1 (n_iter = 0 fails on the unbound loop variable); check_convergence_every >= 0 (0 with a tolerance must raise)",
+    "convergence tests whose float norm is within 1e-9 (relative) of the tolerance are not compared with the exact model",
+    "array priors have positive entries (the initial draw uses 1/prior); priors are floats or arrays, not ints; seed is an int",
+    "node labels are integers, all N nodes present; row i of u belongs to the i-th node in sorted label order",
     "hyperedge weights are positive",
 ]
 TRUSTED = [
@@ -181,15 +191,70 @@ def prior_matrix(p, rows, cols):
     return [[Fraction(x) for x in row] for row in p]
 
 
-def build_hypergraph(N, edges, weights):
+def gen_history(rng, N, edges):
+    """how the Hypergraph object is reached: non-contiguous (strictly increasing) integer labels, shuffled insertion of
+    nodes and hyperedges, nodes of a hyperedge passed in any order, temporary hyperedges, removed and re-inserted ones"""
+    if rng.random() < 0.45:
+        return None
+    step = rng.choice([1, 1, 2, 7])
+    base = rng.choice([0, 0, 3, 100])
+    labels = [base + step * i + (rng.randint(0, step - 1) if step > 1 else 0) for i in range(N)]
+    node_order = list(range(N))
+    rng.shuffle(node_order)
+    edge_order = list(range(len(edges)))
+    rng.shuffle(edge_order)
+    perms = [rng.sample(list(e), len(e)) for e in edges]
+    Dtrue = max(len(e) for e in edges)
+    temp = []
+    for _ in range(rng.randint(0, 2)):
+        e = tuple(sorted(rng.sample(range(N), rng.randint(2, Dtrue))))
+        if e not in set(edges) and e not in temp:
+            temp.append(e)
+    readd = rng.sample(range(len(edges)), rng.randint(0, min(2, len(edges))))
+    return {"labels": labels, "node_order": node_order, "edge_order": edge_order, "perms": perms, "temp": temp, "readd": readd}
+
+
+def build_hypergraph(N, edges, weights, hist=None):
     from hypergraphx import Hypergraph
     h = Hypergraph(weighted=weights is not None)
-    h.add_nodes(list(range(N)))
-    if weights is None:
-        h.add_edges([tuple(e) for e in edges])
-    else:
-        h.add_edges([tuple(e) for e in edges], weights=list(weights))
+    if not hist:
+        h.add_nodes(list(range(N)))
+        if weights is None:
+            h.add_edges([tuple(e) for e in edges])
+        else:
+            h.add_edges([tuple(e) for e in edges], weights=list(weights))
+        return h
+    L = hist["labels"]
+
+    def lab(e):
+        return tuple(L[i] for i in e)
+
+    def add(k):
+        if weights is None:
+            h.add_edge(lab(hist["perms"][k]))
+        else:
+            h.add_edge(lab(hist["perms"][k]), weight=weights[k])
+    h.add_nodes([L[i] for i in hist["node_order"]])
+    for t in hist["temp"]:
+        if weights is None:
+            h.add_edge(lab(t))
+        else:
+            h.add_edge(lab(t), weight=7)
+    for k in hist["edge_order"]:
+        add(k)
+    for t in hist["temp"]:
+        h.remove_edge(lab(t))
+    for k in hist["readd"]:
+        h.remove_edge(lab(edges[k]))
+        add(k)
     return h
+
+
+def data_mismatch(cols, hw, edges, weights):
+    """the implementation's incidence columns / weights against the hypergraph that was built (index space)"""
+    want = sorted((tuple(sorted(e)), float(1 if weights is None else w)) for e, w in zip(edges, weights or [1] * len(edges)))
+    got = sorted((tuple(sorted(c)), float(w)) for c, w in zip(cols, hw))
+    return None if want == got else f"binary_incidence_matrix / get_weights give {got}, the hypergraph has {want}"
 
 
 def incidence_and_weights(h, N):
@@ -230,11 +295,14 @@ def check_closed(ctx, drv, case):
 
     # ---- _linear_ops on exact arrays
     st, r = guarded(lambda: (lo.qf(uq, wq), lo.bf(uq, uq, wq), lo.qf_and_sum(uq, wq), lo.bf_and_sum(uq, wq),
-                             lo.qf(uq[0], wq), lo.bf(uq[0], uq[N - 1], wq)))
+                             lo.qf(uq[0], wq), lo.bf(uq[0], uq[N - 1], wq), lo.bf(uq, uq[N - 1], wq), lo.bf(uq[0], uq, wq)))
     if st != "ok":
         viol(f"_linear_ops raised {r}")
     else:
-        qf_, bf_, qfs, bfs, qf0, bf0 = r
+        qf_, bf_, qfs, bfs, qf0, bf0, bf_col, bf_row = r
+        if [F(x) for x in bf_col] != [bilin(u[i], w, u[N - 1]) for i in range(N)] or \
+                [F(x) for x in bf_row] != [bilin(u[0], w, u[j]) for j in range(N)]:
+            viol("bf(batch, vector, w) / bf(vector, batch, w) differ from u_i^T w u_j")
         want_qf = [bilin(u[i], w, u[i]) for i in range(N)]
         want_bf = [[bilin(u[i], w, u[j]) for j in range(N)] for i in range(N)]
         pair_sum = sum(bilin(u[i], w, u[j]) for i in range(N) for j in range(i + 1, N))
@@ -252,14 +320,27 @@ def check_closed(ctx, drv, case):
         ask("bfsum", "rats", [F(bfs)])
 
     # ---- Poisson parameters of the data hyperedges, through the real incidence matrix
-    st, r = guarded(lambda: incidence_and_weights(build_hypergraph(N, edges, weights), N))
+    hist = case.get("hist")
+    labels = hist["labels"] if hist else list(range(N))
+
+    def inc_and_map():
+        from hypergraphx.linalg.linalg import binary_incidence_matrix
+        h = build_hypergraph(N, edges, weights, hist)
+        B2, mapping = binary_incidence_matrix(h, return_mapping=True)
+        return incidence_and_weights(h, N), B2, mapping
+    st, r = guarded(inc_and_map)
     if st != "ok":
         viol(f"binary_incidence_matrix / Hypergraph raised {r}")
         cols = None
     else:
-        B, Bd, cols, hw = r
-        if sorted(cols) != sorted(edges):
-            viol(f"binary incidence columns {cols} are not the hyperedges {edges}")
+        (B, Bd, cols, hw), B2, mapping = r
+        mm = data_mismatch(cols, hw, edges, weights)
+        if mm:
+            viol(mm)
+        if Bd.shape != (N, len(edges)) or (B2 != B).nnz:
+            viol(f"binary_incidence_matrix: shape {Bd.shape} for {N} nodes and {len(edges)} hyperedges, or return_mapping changes the matrix")
+        if {int(k): v for k, v in dict(mapping).items()} != {i: labels[i] for i in range(N)}:
+            viol(f"binary_incidence_matrix(return_mapping=True) maps {dict(mapping)}, the rows are the nodes {labels} in sorted order")
     model = None
     st, r = guarded(lambda: HyMMSBM(u=uq, w=wq, max_hye_size=D, u_prior=0.0, w_prior=1.0))
     if st != "ok":
@@ -302,6 +383,8 @@ def check_closed(ctx, drv, case):
         dsets.append((d1, [d1]))
         if D >= 3:
             dsets.append((np.arange(3, D + 1), list(range(3, D + 1))))
+        if case.get("d_subset"):
+            dsets.append((np.array(case["d_subset"]), list(case["d_subset"])))
         for darg, ds in dsets:
             dtxt = hgxv.enc_list(ds)
             # C, summands, C', C'', kappa
@@ -420,9 +503,10 @@ def compare(ctx, drv, case, lines, expect):
                 if val == "rej":
                     ok = a == "rej"
                 else:
-                    Dm, uu, ww = val
+                    Dm, uu, ww, it, reached = val
                     p = a.split("|")
-                    ok = len(p) == 3 and int(p[0]) == Dm and mat_close(dec_mat(p[1]), uu, 1e-8) and mat_close(dec_mat(p[2]), ww, 1e-8)
+                    ok = (len(p) == 5 and int(p[0]) == Dm and mat_close(dec_mat(p[1]), uu, 1e-8) and mat_close(dec_mat(p[2]), ww, 1e-8)
+                          and p[3] == str(it) and p[4] == str(int(reached)))
         except Exception as e:  # noqa: BLE001
             ok = False
             a = f"{a[:80]} ({type(e).__name__})"
@@ -436,8 +520,10 @@ def gen_closed(rng):
     D = rng.randint(2, N)
     diag = rng.random() < 0.4
     edges, weights = gen_edges(rng, N, D)
+    sub = rng.sample(range(2, D + 1), rng.randint(1, D - 1))     # non-contiguous, unsorted sizes
     return {"kind": "closed", "N": N, "K": K, "D": D, "u": gen_u(rng, N, K), "w": gen_w(rng, K, diag),
-            "edges": edges, "weights": weights, "d_single": rng.randint(2, D)}
+            "edges": edges, "weights": weights, "d_single": rng.randint(2, D), "d_subset": sub,
+            "hist": gen_history(rng, N, edges)}
 
 
 # -------------------------------------------------------------------------------------------------
@@ -470,7 +556,7 @@ def check_update(ctx, drv, case):
     def conv(p):
         return float(p) if isinstance(p, (int, float)) else qarr(p)
     st, r = guarded(lambda: (HyMMSBM(u=qarr(u), w=qarr(w), u_prior=conv(up), w_prior=conv(wp), max_hye_size=N),
-                             incidence_and_weights(build_hypergraph(N, edges, weights), N)))
+                             incidence_and_weights(build_hypergraph(N, edges, weights, case.get("hist")), N)))
     if st != "ok":
         ctx.case(repr(("update", case)), False)
         ctx.violation(case, f"constructing the model / incidence matrix raised {r}")
@@ -547,7 +633,7 @@ def gen_update(rng):
     if rng.random() < 0.7:   # mostly strictly positive memberships: every Poisson parameter positive
         u = [[x if x > 0 else Fraction(rng.randint(1, 16), 8) for x in row] for row in u]
     return {"kind": "update", "N": N, "K": K, "u": u, "w": gen_w(rng, K, diag), "edges": edges, "weights": weights,
-            "w_prior": gen_prior(rng, K, K, True), "u_prior": gen_prior(rng, N, K, False)}
+            "w_prior": gen_prior(rng, K, K, True), "u_prior": gen_prior(rng, N, K, False), "hist": gen_history(rng, N, edges)}
 
 
 # -------------------------------------------------------------------------------------------------
@@ -576,8 +662,30 @@ def exact_loglik(u, w, cols, A, N, D, rmat):
     return data - norm, data - norm - pen
 
 
-def run_fit(case, n_iter, record):
-    """one real fit; returns the model and the list of recorded update calls"""
+def conv_prior(p):
+    """a prior as the constructor takes it: float, or float array"""
+    import numpy as np
+    if isinstance(p, (int, float, Fraction)):
+        return float(p)
+    return np.array([[float(F(x)) for x in row] for row in p])
+
+
+def prior_is_zero(p):
+    return isinstance(p, (int, float, Fraction)) and float(p) == 0.0
+
+
+def stop_of(case):
+    """(tolerance, check_convergence_every) in effect; 'default' = the argument is not passed (None / 10)"""
+    tol = case.get("tolerance", "default")
+    if isinstance(tol, dict):
+        raise ValueError("tolerance not resolved")
+    ev = case.get("every", "default")
+    return (None if tol == "default" else tol), (10 if ev == "default" else ev)
+
+
+def run_fit(case, n_iter, record, no_stop=False):
+    """one real fit; returns the model and the list of recorded update calls.
+    no_stop: the reference run (tolerance / check_convergence_every not passed)"""
     import numpy as np
     from hypergraphx.communities.hy_mmsbm.model import HyMMSBM
     N, K = case["N"], case["K"]
@@ -585,9 +693,14 @@ def run_fit(case, n_iter, record):
     w_sup = None if case["w"] is None else np.array([[float(F(x)) for x in r] for r in case["w"]])
     u_copy = None if u_sup is None else u_sup.copy()
     w_copy = None if w_sup is None else w_sup.copy()
-    h = build_hypergraph(N, [tuple(e) for e in case["edges"]], case["weights"])
-    m = HyMMSBM(K=K, u=u_sup, w=w_sup, assortative=case["assortative"], max_hye_size=case["max_hye_size"],
-                u_prior=float(case["u_prior"]), w_prior=float(case["w_prior"]), seed=case["seed"])
+    h = build_hypergraph(N, [tuple(e) for e in case["edges"]], case["weights"], case.get("hist"))
+    up, wp = conv_prior(case["u_prior"]), conv_prior(case["w_prior"])
+    kw = {}
+    if case.get("pass_K", True) or (u_sup is None and w_sup is None):
+        kw["K"] = K
+    if case.get("pass_assortative", True) or w_sup is None:
+        kw["assortative"] = case["assortative"]
+    m = HyMMSBM(u=u_sup, w=w_sup, max_hye_size=case["max_hye_size"], u_prior=up, w_prior=wp, seed=case["seed"], **kw)
     if case.get("w_init") is not None:
         # deterministic initial value instead of the random draw (used by the D28 witness only)
         w0 = np.array([[float(F(x)) for x in r] for r in case["w_init"]])
@@ -606,60 +719,229 @@ def run_fit(case, n_iter, record):
             steps.append(("u", np.array(m.u, dtype=float).copy(), np.array(m.w, dtype=float).copy(), np.array(out, dtype=float).copy()))
             return out
         m._w_update, m._u_update = rec_w, rec_u
-    m.fit(h, n_iter=n_iter)
-    return m, steps, (u_sup, u_copy, w_sup, w_copy), h
+    fkw = {}
+    if not no_stop:
+        if case.get("tolerance", "default") != "default":
+            fkw["tolerance"] = case["tolerance"]
+        if case.get("every", "default") != "default":
+            fkw["check_convergence_every"] = case["every"]
+    m.fit(h, n_iter=n_iter, **fkw)
+    priors = (up, None if isinstance(up, float) else up.copy(), wp, None if isinstance(wp, float) else wp.copy())
+    return m, steps, (u_sup, u_copy, w_sup, w_copy), h, priors
+
+
+def trajectory(steps, free_w, free_u, p_fixed, n):
+    """states (u, w) after 0, 1, 2, .. passes of the loop body, from the recorded update calls of the reference run"""
+    if not (free_w or free_u):
+        return [p_fixed] * (n + 1)
+    per = int(free_w) + int(free_u)
+    if not steps or len(steps) % per:
+        return None
+    u, w = steps[0][1], steps[0][2]
+    T = [(u, w)]
+    for i in range(0, len(steps), per):
+        j = i
+        if free_w:
+            if steps[j][0] != "w":
+                return None
+            w = steps[j][3]
+            j += 1
+        if free_u:
+            if steps[j][0] != "u":
+                return None
+            u = steps[j][3]
+        T.append((u, w))
+    return T
+
+
+def underflow_regime(kind, u, w, edges, ru, rw):
+    """is the float state (u, w) one in which the next update divides by (numerically) zero?  The Poisson parameters of
+    the data and the update's denominators, by their definitions in binary64; `None` when all are of ordinary size.
+    The theorems assume positive Poisson parameters and denominators (C15_update_finite); in binary64 a membership
+    column that shrinks doubly exponentially reaches 1e-200 and its products underflow to exactly 0."""
+    import numpy as np
+    tiny = 1e-250
+    with np.errstate(all="ignore"):
+        G = u @ w @ u.T
+        lams = [sum(G[i, j] for x, i in enumerate(e) for j in e[x + 1:]) for e in edges]
+        us = u.sum(axis=0)
+        if kind == "w":
+            den = 0.5 * (np.outer(us, us) - u.T @ u) + np.asarray(rw, dtype=float)
+        else:
+            den = (w @ us)[None, :] - u @ w + np.asarray(ru, dtype=float)
+    if any(not (abs(l) >= tiny) for l in lams):
+        return f"a Poisson parameter of the data is {min(abs(float(l)) for l in lams):.3g} in binary64"
+    if not np.all(np.abs(den) >= tiny):
+        return f"a denominator of the {kind}-update is {float(np.min(np.abs(den))):.3g} in binary64"
+    return None
+
+
+def frob(x, y):
+    import numpy as np
+    d = (np.asarray(x, dtype=float) - np.asarray(y, dtype=float)).ravel()
+    return math.sqrt(math.fsum(float(t) * float(t) for t in d))
+
+
+def predict_stop(T, tol, every, n, N, K, margin):
+    """the stopping rule by its description: at it > 0, it % every == 0 the loop is left when both
+    ||w - old_w||_F / K and ||u - old_u||_F / N are below the tolerance; else it runs to it = n-1.
+    Returns (training_iter, tolerance_reached, a test was within `margin` of the tolerance)"""
+    border = False
+    if tol is not None:
+        for it in range(1, n):
+            if it % every:
+                continue
+            dw = frob(T[it + 1][1], T[it][1]) / K
+            du = frob(T[it + 1][0], T[it][0]) / N
+            for dd in (dw, du):
+                if dd > 0 and abs(dd - tol) <= margin * max(dd, abs(tol)):
+                    border = True
+            if dw < tol and du < tol:
+                return it, True, border
+    return n - 1, False, border
+
+
+def enc_traj(T):
+    us = "|".join(enc_mat(u.tolist()) for u, _ in T)
+    ws = "|".join(enc_mat(w.tolist()) for _, w in T)
+    return f"traj {us} {ws}"
+
+
+def underflow_finding(ctx, case, it, kind, why):
+    """binary64 underflow makes `fit` return NaN parameters (unchanged tree: e.g. one hyperedge (0,1,2), K=3, u and w
+    inferred, n_iter >= 10).  Printed as KNOWN-FINDING once an entry for it is listed in known_findings.json
+    (property C15, class containing 'underflow'); until then it is counted in the evidence only."""
+    ctx.count("fit_cases_non_finite_after_binary64_underflow")
+    ent = [f for f in getattr(ctx, "known_findings", []) or [] if f.get("property") == "C15" and "underflow" in str(f.get("class", ""))]
+    if ent:
+        ctx.known(ent[0].get("id"), f"call-site class 'binary64 underflow': the {kind}-update of iteration {it} returns a non-finite value "
+                                    f"({why}); N={case['N']} K={case['K']} edges={case['edges']} seed={case['seed']}")
 
 
 def check_fit(ctx, drv, case, nmax=8, model_replay=True):
     import numpy as np
     N, K = case["N"], case["K"]
     edges = [tuple(e) for e in case["edges"]]
+    wts = case["weights"] if case["weights"] is not None else [1] * len(edges)
     Dtrue = max(len(e) for e in edges)
-    rw = prior_matrix(float(case["w_prior"]), K, K)
-    ru = prior_matrix(float(case["u_prior"]), N, K)
-    bad = []
+    rw = prior_matrix(case["w_prior"], K, K)
+    ru = prior_matrix(case["u_prior"], N, K)
+    orig_case = case
+    every = stop_of({**case, "tolerance": None})[1]
+    n_list = list(case.get("n_list") or range(1, nmax + 1))
+    free_w, free_u = case["w"] is None, case["u"] is None
+    bad, differ = [], []
     liks = []
     moved = False
     expect_rej = case["max_hye_size"] is not None and case["max_hye_size"] < Dtrue
-    first_run = None
-    for n in range(1, nmax + 1):
-        st, r = guarded(lambda: run_fit(case, n, record=(n <= 2 or n == nmax)))
+    expect_zde = case.get("tolerance", "default") not in ("default", None) and every == 0     # `it % 0`
+    # ---- reference run: no stopping rule, the largest n_iter; gives the trajectory of (u, w)
+    T = None
+    ref_steps = []
+    Nref = max(n_list)
+    st, r = guarded(lambda: run_fit(case, Nref, record=True, no_stop=True), seconds=40)
+    if st == "ok":
+        m, ref_steps, sup, h, _ = r
+        p_fixed = (np.asarray(m.u, dtype=float), np.asarray(m.w, dtype=float))
+        T = trajectory(ref_steps, free_w, free_u, p_fixed, Nref)
+        if T is None or len(T) != Nref + 1:
+            bad.append(f"fit(n_iter={Nref}) made {len(ref_steps)} update calls, not one w-update and/or one u-update per iteration")
+            T = None
+        st2, r2 = guarded(lambda: incidence_and_weights(h, N))
+        if st2 != "ok":
+            bad.append(f"binary_incidence_matrix raised {r2}")
+        else:
+            mm = data_mismatch(r2[2], r2[3], edges, case["weights"])
+            if mm:
+                bad.append(mm)
+        # binary64 underflow: the first non-finite update result, if it comes from a state whose Poisson parameters /
+        # denominators have underflowed (outside the hypotheses of the theorems, reported as a count / known finding);
+        # the iterations before it are checked as usual
+        per = int(free_w) + int(free_u)
+        for idx, (kind, ui, wi, out) in enumerate(ref_steps):
+            if not np.all(np.isfinite(out)):
+                why = underflow_regime(kind, ui, wi, edges, ru, rw) if np.all(np.isfinite(ui)) and np.all(np.isfinite(wi)) else None
+                if why is None:
+                    bad.append(f"fit(n_iter={Nref}): the {kind}-update of iteration {idx // per} gave a non-finite value from an ordinary "
+                               f"finite state (u={ui.tolist()}, w={wi.tolist()})")
+                else:
+                    underflow_finding(ctx, case, idx // per, kind, why)
+                    n_list = [n for n in n_list if n <= idx // per]
+                    ref_steps = ref_steps[:(idx // per) * per]
+                    T = T[:idx // per + 1] if T is not None else None
+                    Nref = idx // per
+                break
+    elif not (expect_rej and r.startswith("ValueError")):
+        bad.append(f"fit(n_iter={Nref}) raised {r}")
+    if isinstance(case.get("tolerance"), dict):
+        # a tolerance next to the decision boundary of this very trajectory: `factor` times the larger of the two
+        # normalised distances at the k-th convergence test (the same rule on replay: the reference run is deterministic)
+        spec, resolved = case["tolerance"], 1e-3
+        checks = [it for it in range(1, Nref) if every >= 1 and it % every == 0]
+        if T is not None and checks:
+            itc = checks[min(spec["k"], len(checks) - 1)]
+            base = max(frob(T[itc + 1][1], T[itc][1]) / K, frob(T[itc + 1][0], T[itc][0]) / N)
+            if base > 0 and math.isfinite(base):
+                resolved = base * spec["factor"]
+        case = {**case, "tolerance": resolved}
+        ctx.count("fit_cases_tolerance_at_decision_boundary")
+    tol, every = stop_of(case)
+    if T is not None and drv is not None and model_replay and not (expect_rej or expect_zde or bad):
+        compare(ctx, drv, orig_case, [enc_traj(T)], [("ok", None)])
+    Cdef = None
+    for n in ([] if bad else n_list):
+        st, r = guarded(lambda: run_fit(case, n, record=False))
         if st != "ok":
             if expect_rej and r.startswith("ValueError"):
-                if n == 1 and drv is not None:
+                if drv is not None:
                     compare(ctx, drv, case, *fit_lines(case, None, None, n, ru, rw, 1.0, "rej"))
                 ctx.count("fit_rejected_max_hye_size")
                 break
-            bad.append(f"fit(n_iter={n}) raised {r}")
+            if expect_zde and r.startswith("ZeroDivisionError"):
+                if drv is not None and T is not None:
+                    compare(ctx, drv, case, *fit_lines(case, T[0][0], T[0][1], n, ru, rw, 1.0, "rej"))
+                ctx.count("fit_rejected_check_every_0")
+                break
+            bad.append(f"fit(n_iter={n}, tolerance={tol}, check_convergence_every={every}) raised {r}")
             break
-        m, steps, (u_sup, u_copy, w_sup, w_copy), h = r
+        m, _, (u_sup, u_copy, w_sup, w_copy), h, (up, up_copy, wp, wp_copy) = r
         if expect_rej:
             bad.append(f"fit accepted a hypergraph with a hyperedge of size {Dtrue} > max_hye_size={case['max_hye_size']} "
                        "(the data is impossible under the model; the code announces a ValueError)")
             break
+        if expect_zde:
+            differ.append(f"fit(n_iter={n}, tolerance={tol}, check_convergence_every=0) returned; the model says `it % 0` raises")
+            break
+        tag = f"fit(n_iter={n}, tolerance={tol}, check_convergence_every={every})"
         uu, ww = np.asarray(m.u, dtype=float), np.asarray(m.w, dtype=float)
         # supplied parameters stay (same values, and the caller's arrays were not written)
-        if u_sup is not None and (not np.array_equal(uu, u_copy) or not np.array_equal(u_sup, u_copy)):
-            bad.append(f"fit(n_iter={n}) changed the supplied u")
-        if w_sup is not None and (not np.array_equal(ww, w_copy) or not np.array_equal(w_sup, w_copy)):
-            bad.append(f"fit(n_iter={n}) changed the supplied w")
+        if u_sup is not None and (uu.shape != u_copy.shape or not np.array_equal(uu, u_copy) or not np.array_equal(u_sup, u_copy)):
+            bad.append(f"{tag} changed the supplied u")
+        if w_sup is not None and (ww.shape != w_copy.shape or not np.array_equal(ww, w_copy) or not np.array_equal(w_sup, w_copy)):
+            bad.append(f"{tag} changed the supplied w")
         if case["max_hye_size"] is not None and m.max_hye_size != case["max_hye_size"]:
-            bad.append(f"fit changed the supplied max_hye_size to {m.max_hye_size}")
-        if m.K != K or bool(m.assortative) != bool(case["assortative"]) or m.u_prior != float(case["u_prior"]) or m.w_prior != float(case["w_prior"]):
-            bad.append("fit changed K / assortative / a prior")
+            bad.append(f"{tag} changed the supplied max_hye_size to {m.max_hye_size}")
+        diag_sup = case["w"] is not None and all(F(case["w"][a][b]) == 0 for a in range(K) for b in range(K) if a != b)
+        want_assort = case["assortative"] if (case.get("pass_assortative", True) or case["w"] is None) else diag_sup
+        if m.K != K or bool(m.assortative) != bool(want_assort):
+            bad.append(f"{tag}: K / assortative = {m.K} / {m.assortative}, constructed with {K} / {want_assort}")
+        for name, now, orig, cp in (("u_prior", m.u_prior, up, up_copy), ("w_prior", m.w_prior, wp, wp_copy)):
+            same = (now == orig) if cp is None else (isinstance(now, np.ndarray) and np.array_equal(now, cp) and np.array_equal(orig, cp))
+            if not (isinstance(same, (bool, np.bool_)) and same):
+                bad.append(f"{tag} changed {name}")
         if uu.shape != (N, K) or ww.shape != (K, K):
             bad.append(f"shapes after fit: u {uu.shape}, w {ww.shape}")
             break
         if not (np.all(np.isfinite(uu)) and np.all(np.isfinite(ww))):
-            bad.append(f"fit(n_iter={n}) produced a non-finite parameter")
+            bad.append(f"{tag} produced a non-finite parameter")
             break
         scale = max(1.0, float(np.max(np.abs(ww))), float(np.max(np.abs(uu))))
         if np.min(uu) < -TOL * scale or np.min(ww) < -TOL * scale:
-            bad.append(f"fit(n_iter={n}) produced a negative parameter (min u {np.min(uu)}, min w {np.min(ww)})")
+            bad.append(f"{tag} produced a negative parameter (min u {np.min(uu)}, min w {np.min(ww)})")
         if np.max(np.abs(ww - ww.T)) > TOL * scale:
-            bad.append(f"fit(n_iter={n}): w is not symmetric: {ww.tolist()}")
+            bad.append(f"{tag}: w is not symmetric: {ww.tolist()}")
         if case["assortative"] and np.any(ww - np.diag(np.diag(ww)) != 0):
-            bad.append(f"fit(n_iter={n}) with assortative=True: w is not diagonal: {ww.tolist()}")
+            bad.append(f"{tag} with assortative=True: w is not diagonal: {ww.tolist()}")
         Dm = m.max_hye_size
         if Dm is None or Dm < Dtrue:
             bad.append(f"after fit max_hye_size = {Dm} but the data has a hyperedge of size {Dtrue}: the observed hyperedge is "
@@ -667,54 +949,95 @@ def check_fit(ctx, drv, case, nmax=8, model_replay=True):
             break
         if case["max_hye_size"] is None and Dm != Dtrue:
             bad.append(f"inferred max_hye_size = {Dm}, the largest hyperedge has size {Dtrue}")
-        if first_run is None:
-            first_run = (m, steps, h)
-        # likelihood along n_iter (memberships supplied, affinity inferred)
+        # likelihood along n_iter (memberships supplied, affinity inferred): the data are the hyperedges that were inserted
         if case["u"] is not None and case["w"] is None:
-            st2, r2 = guarded(lambda: incidence_and_weights(h, N))
-            if st2 != "ok":
-                bad.append(f"binary_incidence_matrix raised {r2}")
-                break
-            _, _, cols, hw = r2
-            plain, pen = exact_loglik(uu, ww, cols, hw, N, Dm, rw)
+            plain, pen = exact_loglik(uu, ww, edges, wts, N, Dm, rw)
             if plain is None:
-                bad.append(f"fit(n_iter={n}): a data hyperedge has Poisson parameter <= 0 under the inferred w")
+                bad.append(f"{tag}: a data hyperedge has Poisson parameter <= 0 under the inferred w")
                 break
             liks.append((n, plain, pen))
-        # replay of recorded update steps by the model, from the implementation's current (u, w)
-        if drv is not None and model_replay and steps and n in (1, nmax):
-            kind, ui, wi, out = steps[-1] if n == nmax else steps[0]
-            _, _, cols, hw = incidence_and_weights(h, N)
+        # ---- both exits of the loop (C15_fit_returns): the returned parameters are the trajectory state of the stopping
+        # iteration, the inferred one divided by C() resp. sqrt(C())
+        if T is not None:
+            it_star, reached, border = predict_stop(T, tol, every, n, N, K, 1e-9)
+            if border:
+                ctx.count("runs_with_borderline_convergence_test_skipped")
+            else:
+                Cdef = sum(2.0 / (d * (d - 1)) for d in range(2, Dm + 1))
+                ut, wt = T[it_star + 1]
+                if free_w:
+                    wt = wt / Cdef
+                elif free_u:
+                    ut = ut / math.sqrt(Cdef)
+                got_it, got_reached = getattr(m, "training_iter", None), getattr(m, "tolerance_reached", None)
+                if not (np.allclose(uu, ut, rtol=1e-9, atol=1e-12) and np.allclose(ww, wt, rtol=1e-9, atol=1e-12)):
+                    differ.append(f"{tag}: the loop is left at it={it_star} ({'tolerance reached' if reached else 'end of range'}); the state "
+                                  f"after {it_star + 1} passes divided by C()={Cdef:.6g} is w={wt.tolist()} u[0]={ut[0].tolist()}, fit returned "
+                                  f"w={ww.tolist()} u[0]={uu[0].tolist()} (training_iter={got_it}, tolerance_reached={got_reached})")
+                elif got_it != it_star or bool(got_reached) != reached:
+                    differ.append(f"{tag}: training_iter / tolerance_reached = {got_it} / {got_reached}, the stopping rule gives {it_star} / {reached}")
+                if drv is not None and model_replay:
+                    tl = "none" if tol is None else hgxv.enc_num(float(tol))
+                    a = drv.batch([f"ctrl {tl} {every} {n}"])[0].split("|")
+                    ctx.count("loop_control_replayed_by_model")
+                    if len(a) != 3 or a[0] != str(it_star) or a[1] != str(int(reached)):
+                        differ.append(f"{tag}: the model's loop leaves at it|reached = {a[:2]} on the recorded trajectory, the stopping rule gives {it_star}|{int(reached)}")
+                    elif not (np.array_equal(T[int(a[2])][0], T[it_star + 1][0]) and np.array_equal(T[int(a[2])][1], T[it_star + 1][1])):
+                        differ.append(f"{tag}: the model's loop ends in trajectory state {a[2]}, expected state {it_star + 1}")
+                ctx.count("runs_left_by_break" if reached else "runs_left_at_end_of_range")
+            # the whole fit by the model (short runs on small data: exact rationals grow quickly)
+            _, _, border6 = predict_stop(T, tol, every, n, N, K, 1e-6)
+            if drv is not None and model_replay and n <= case.get("model_fit_upto", 0) and not border6:
+                Cd = sum(2.0 / (d * (d - 1)) for d in range(2, Dm + 1))
+                compare(ctx, drv, {**case, "n_iter": n},
+                        *fit_lines(case, T[0][0], T[0][1], n, ru, rw, math.sqrt(Cd),
+                                   (Dm, uu.tolist(), ww.tolist(), getattr(m, "training_iter", None), bool(getattr(m, "tolerance_reached", None)))))
+                ctx.count("whole_fits_replayed_by_model")
+    # replay of recorded update steps by the model, from the implementation's current (u, w)
+    if drv is not None and model_replay and ref_steps and not bad:
+        # the first step and the last step of iteration 8 (later states of a run with u and w both inferred are too
+        # ill-conditioned - entries 1e-26 next to 50 - for a 1e-9 comparison of binary64 with exact arithmetic)
+        per = int(free_w) + int(free_u)
+        last = ref_steps[min(len(ref_steps), 8 * per) - 1]
+        for kind, ui, wi, out in ([ref_steps[0], last] if len(ref_steps) > 1 else [ref_steps[0]]):
+            if not (np.all(np.isfinite(ui)) and np.all(np.isfinite(wi)) and np.all(np.isfinite(out))):
+                continue
             lines = ["setu " + enc_mat(ui.tolist()), "setw " + enc_mat(wi.tolist()),
-                     "data " + hgxv.enc_lists(cols) + " " + hgxv.enc_list([F(x) for x in hw]),
+                     "data " + hgxv.enc_lists(edges) + " " + hgxv.enc_list([F(x) for x in wts]),
                      ("wupd " + enc_mat(rw)) if kind == "w" else ("uupd " + enc_mat(ru))]
-            compare(ctx, drv, {**case, "n_iter": n}, lines, [("ok", None)] * 3 + [("toll", out.tolist())])
+            compare(ctx, drv, case, lines, [("ok", None)] * 3 + [("toll", out.tolist())])
             ctx.count("update_steps_replayed_by_model")
-        # the whole fit by the model (n_iter = 1, 2 on small data: exact rationals grow quickly)
-        if drv is not None and model_replay and n <= case.get("model_fit_upto", 0) and steps:
-            _, u0, w0, _ = steps[0]
-            Cd = sum(2.0 / (d * (d - 1)) for d in range(2, Dm + 1))
-            compare(ctx, drv, {**case, "n_iter": n}, *fit_lines(case, u0, w0, n, ru, rw, math.sqrt(Cd), (Dm, uu.tolist(), ww.tolist())))
-            ctx.count("whole_fits_replayed_by_model")
     # monotonicity
     d28 = None
     for (n0, p0, q0), (n1, p1, q1) in zip(liks, liks[1:]):
         if abs(p1 - p0) > TOL * max(1.0, abs(p0)):
             moved = True
         if q1 < q0 - TOL * max(1.0, abs(q0)):
-            bad.append(f"penalised exact log-likelihood decreased from n_iter={n0} to {n1}: {q0!r} -> {q1!r} (w_prior={case['w_prior']})")
+            bad.append(f"penalised exact log-likelihood decreased from n_iter={n0} to {n1}: {q0!r} -> {q1!r} "
+                       f"(w_prior={case['w_prior']}, tolerance={tol}, check_convergence_every={every})")
         if p1 < p0 - TOL * max(1.0, abs(p0)):
-            if float(case["w_prior"]) == 0.0:
-                bad.append(f"exact Poisson log-likelihood decreased from n_iter={n0} to {n1}: {p0!r} -> {p1!r} (w_prior=0)")
+            if prior_is_zero(case["w_prior"]):
+                bad.append(f"exact Poisson log-likelihood decreased from n_iter={n0} to {n1}: {p0!r} -> {p1!r} "
+                           f"(w_prior=0, tolerance={tol}, check_convergence_every={every})")
             elif d28 is None:
                 d28 = (n0, n1, p0, p1)
     if d28 is not None:
         ctx.count("D28_fit_runs_with_plain_decrease")
-    ctx.count("fit_runs_prior_%g" % float(case["w_prior"]))
-    ctx.case(repr(("fit", sorted(case.items(), key=lambda kv: kv[0]).__repr__())), moved or case["u"] is None or case["w"] is not None,
-             sample=case)
+    ctx.count("fit_runs_prior_%s" % ("%g" % float(case["w_prior"]) if isinstance(case["w_prior"], (int, float, Fraction)) else "array"))
+    ctx.count("fit_runs_tolerance_%s" % ("none" if tol is None else ("%g" % tol if tol in (0.0, 1.0, 100.0) else ("small" if tol < 1e-4 else "medium"))))
+    ctx.case(repr(("fit", sorted(orig_case.items(), key=lambda kv: kv[0]).__repr__())), moved or case["u"] is None or case["w"] is not None,
+             sample=orig_case)
     for what in bad:
-        ctx.violation(case, what)
+        ctx.violation(orig_case, what)
+    for what in differ:
+        ctx.disagree(orig_case, what)
+    if isinstance(orig_case.get("tolerance"), dict) and not orig_case.get("twin") and not (bad or differ):
+        # the same data with the tolerance on the other side of the same convergence test: a test that is off by a
+        # factor (wrong normalisation) changes the decision on one of the two sides
+        spec = orig_case["tolerance"]
+        twin = {**orig_case, "twin": True, "model_fit_upto": 0,
+                "tolerance": {"k": spec["k"], "factor": {1.05: 0.95, 0.95: 1.05, 1.5: 0.7, 0.7: 1.5}.get(spec["factor"], 1.0 / spec["factor"])}}
+        check_fit(ctx, drv, twin, nmax=nmax, model_replay=model_replay)
     return d28, liks
 
 
@@ -724,12 +1047,54 @@ def fit_lines(case, u0, w0, n, ru, rw, sqrtC, val):
     weights = case["weights"] if case["weights"] is not None else [1] * len(edges)
     u_set = case["u"] if case["u"] is not None else (u0.tolist() if u0 is not None else [[0] * K] * N)
     w_set = case["w"] if case["w"] is not None else (w0.tolist() if w0 is not None else [[0] * K] * K)
+    tol, every = stop_of(case)
     lines = ["setu " + enc_mat(u_set), "setw " + enc_mat(w_set),
              "data " + hgxv.enc_lists(edges) + " " + hgxv.enc_list([F(x) for x in weights]),
-             "fit %d %d %d %s %s %s %d" % (case["u"] is not None, case["w"] is not None,
-                                          -1 if case["max_hye_size"] is None else case["max_hye_size"],
-                                          enc_mat(ru), enc_mat(rw), hgxv.enc_num(float(sqrtC)), n)]
+             "fit %d %d %d %s %s %s %d %s %d" % (case["u"] is not None, case["w"] is not None,
+                                                -1 if case["max_hye_size"] is None else case["max_hye_size"],
+                                                enc_mat(ru), enc_mat(rw), hgxv.enc_num(float(sqrtC)), n,
+                                                "none" if tol is None else hgxv.enc_num(float(tol)), every)]
     return lines, [("ok", None)] * 3 + [("fit", val)]
+
+
+def gen_tolerance(rng):
+    r = rng.random()
+    if r < 0.18:
+        return "default"
+    if r < 0.25:
+        return None
+    if r < 0.40:
+        return rng.choice([0.5, 1.0, 100.0])
+    if r < 0.58:
+        return rng.choice([1e-1, 1e-2, 1e-3]) * rng.randint(1, 9)
+    if r < 0.66:
+        return rng.choice([1e-6, 1e-9]) * rng.randint(1, 9)
+    if r < 0.70:
+        return 0.0
+    # resolved in check_fit from the reference trajectory: just above / below the distances at the k-th convergence test
+    return {"k": rng.randint(0, 3), "factor": rng.choice([1.05, 1.05, 0.95, 1.5, 0.7])}
+
+
+def gen_every(rng, tol):
+    r = rng.random()
+    if r < 0.22:
+        return "default"
+    if r < 0.50:
+        return 1
+    if r < 0.88:
+        return rng.choice([2, 3, 5])
+    if r < 0.97:
+        return rng.choice([7, 10, 12])
+    return 0
+
+
+def make_n_list(rng, tol, every):
+    ns = set(range(1, 9))
+    if tol is not None and every >= 1:
+        for k in (1, 2, 3):
+            ns.update({k * every, k * every + 1, k * every + 2})
+        ns.add(rng.choice([24, 40, 64]))
+    return sorted(x for x in ns if 1 <= x <= 64)
 
 
 def gen_fit(rng):
@@ -751,9 +1116,28 @@ def gen_fit(rng):
     r = rng.random()
     mhs = None if r < 0.5 else (rng.randint(Dtrue, N) if r < 0.93 or Dtrue <= 2 else rng.randint(2, Dtrue - 1))
     small = len(edges) <= 4 and N <= 4 and which != "none"   # exact rationals explode when u and w both move
+    w_prior = rng.choice([0.0, 1.0, 5.0])
+    u_prior = rng.choice([0.0, 0.0, 1.0])
+    if rng.random() < 0.15:     # array priors (positive entries: the initial draw uses 1 / prior)
+        w_prior = [[Fraction(rng.randint(1, 8), 4) for _ in range(K)] for _ in range(K)]
+        for a in range(K):
+            for b in range(a):
+                w_prior[a][b] = w_prior[b][a]
+    if rng.random() < 0.15:
+        u_prior = [[Fraction(rng.randint(1, 8), 4) for _ in range(K)] for _ in range(N)]
+    tol = gen_tolerance(rng)
+    every = gen_every(rng, tol)
+    tol_eff = None if tol == "default" else (1.0 if isinstance(tol, dict) else tol)
+    ev_eff = 10 if every == "default" else every
+    upto = 0
+    if rng.random() < 0.6:
+        upto = (3 if (len(edges) <= 3 and which == "u") else 2) if small else 1
     return {"kind": "fit", "N": N, "K": K, "assortative": assort, "edges": edges, "weights": weights, "u": u, "w": w,
-            "w_prior": rng.choice([0.0, 1.0, 5.0]), "u_prior": rng.choice([0.0, 0.0, 1.0]), "max_hye_size": mhs,
-            "seed": rng.randint(0, 10 ** 6), "model_fit_upto": (2 if small else 1) if rng.random() < 0.5 else 0}
+            "w_prior": w_prior, "u_prior": u_prior, "max_hye_size": mhs,
+            "seed": rng.randint(0, 10 ** 6), "model_fit_upto": upto,
+            "tolerance": tol, "every": every, "n_list": make_n_list(rng, tol_eff, ev_eff),
+            "pass_K": rng.random() < 0.7, "pass_assortative": rng.random() < 0.7,
+            "hist": gen_history(rng, N, edges)}
 
 
 # -------------------------------------------------------------------------------------------------
@@ -764,7 +1148,7 @@ def gen_fit(rng):
 # 3 log(21/8) + 3 log(27/16) - 83/16 = -0.7225  ->  3 log(8/3) + 3 log(5/3) - 47/9 = -0.7473
 D28_CASE = {"kind": "fit", "N": 3, "K": 2, "assortative": True, "edges": [(0, 1), (0, 2)], "weights": [3, 3],
             "u": [[3, 1], [2, 0], [1, 1]], "w": None, "w_prior": 1.0, "u_prior": 0.0, "max_hye_size": None,
-            "seed": 0, "w_init": [[1, 0], [0, 1]], "model_fit_upto": 3, "nmax": 3}
+            "seed": 0, "w_init": [[1, 0], [0, 1]], "model_fit_upto": 3, "nmax": 3, "n_list": [1, 2, 3]}
 
 
 def replay_known(ctx, drv):
